@@ -259,7 +259,11 @@ fn run_amplifiers(cx: &mut Ctx, idx: &mut u64) -> bool {
             // (n, ops of open, bytes of open, cpu = max(open, costliest later call), min of 2 sweeps)
             let mut steps: Vec<(u64, u64, u64, u64)> = Vec::new();
             for d in 0..4 {
-                let target = (base * crate::hostile::amplifier_scale(fam)) << d;
+                // (scaled families start at 512 KiB at most: beyond 4 MiB the unchanged reader's
+                // own per-call times leave the linear regime for cache reasons - 379 ms at 8 MiB,
+                // 1208 ms at 16 MiB measured - and the doubling test would sit at its limit)
+                let scale = crate::hostile::amplifier_scale(fam);
+                let target = (if scale > 1 { (base * scale).min(512 << 10) } else { *base }) << d;
                 let id = format!("amp:{}:{}", fam, target);
                 if !cx.args.want(&id) && cx.args.only.is_some() {
                     continue;
